@@ -177,6 +177,10 @@ class VEPRecord():
                     ref = str(seq.seq[alt_start])
                     if ref == allele[-1]:
                         alt_start -= 1
+                        if alt_start < tx_start_genetic or \
+                                (alt_start == tx_start_genetic \
+                                and not tx_model.is_cds_start_nf()):
+                            raise TranscriptionStartSiteMutationError(tx_id)
                         alt_end = alt_start + 1
                         ref = str(seq.seq[alt_start])
                         alt = ref + allele[:-1]
